@@ -231,7 +231,7 @@ pub fn run(ctx: &mut Ctx) {
         }
     }
     ctx.mark_exhaustive("near-misses", "a fixed catalogue of field-level near misses");
-    let n = ctx.tier.pick(30_000, 1_000_000);
+    let n = ctx.tier.pick(150_000, 1_000_000);
     let wf = wellformed_spec().prop_map(|s| Input::History { lines: vec![Line::new(s.render(), false)] });
     ctx.run_proptest("generated-wellformed", &STD, n, wf, check);
     // generated sentence, one random edit, checksum re-fixed half the time
